@@ -29,6 +29,8 @@ type c16srv struct {
 	tcpSame bool
 	// close the TCP connection after each reply (a server that serves one query per connection)
 	closeAfterReply bool
+	slowReply       time.Duration // the TCP server answers this much later
+	overlap         int           // queries that arrived on a TCP connection which still owed a reply
 	port            int
 	uc              *net.UDPConn
 	tl              net.Listener
@@ -124,6 +126,7 @@ func c16setup() {
 			}
 			go func() {
 				defer c.Close()
+				pending := 0 // queries received on this connection and not yet answered (guarded by c16.mu)
 				for {
 					var l [2]byte
 					if _, err := io.ReadFull(c, l[:]); err != nil {
@@ -139,6 +142,11 @@ func c16setup() {
 					}
 					c16.mu.Lock()
 					leg := c16.t
+					if pending > 0 {
+						c16.overlap++ // a second query on a connection that still owes a reply (not a pipelining transport)
+					}
+					pending++
+					slow := c16.slowReply
 					c16.tcpSeen = append(c16.tcpSeen, c16nonce(q))
 					raw := append([]byte(nil), b...)
 					raw[0], raw[1] = 0, 0
@@ -155,7 +163,20 @@ func c16setup() {
 					out := make([]byte, 2+len(rb))
 					binary.BigEndian.PutUint16(out, uint16(len(rb)))
 					copy(out[2:], rb)
+					if slow > 0 { // the reply comes late; the reader goes on (a second query may arrive meanwhile)
+						go func() {
+							time.Sleep(slow)
+							c.Write(out)
+							c16.mu.Lock()
+							pending--
+							c16.mu.Unlock()
+						}()
+						continue
+					}
 					c.Write(out)
+					c16.mu.Lock()
+					pending--
+					c16.mu.Unlock()
 					c16.mu.Lock()
 					cl := c16.closeAfterReply
 					c16.mu.Unlock()
@@ -306,6 +327,12 @@ func c16runSeq(cs string) string {
 	defer up.Close()
 	res := make([]string, k*par)
 	fail := atoi(m["fail"]) // during the first `fail` rounds the TCP server closes without replying
+	// during the first `giveup` rounds the TCP server answers after 400 ms and the caller's deadline is 150 ms: the
+	// caller gets an error; the connection still owes its reply, so the next exchange must not be put on it
+	giveup := atoi(m["giveup"])
+	c16.mu.Lock()
+	c16.overlap = 0
+	c16.mu.Unlock()
 	for i := 0; i < k; i++ {
 		c16.mu.Lock()
 		if i < fail {
@@ -313,7 +340,15 @@ func c16runSeq(cs string) string {
 		} else {
 			c16.t = "ok:auto:0"
 		}
+		c16.slowReply = 0
+		if i < giveup {
+			c16.slowReply = 400 * time.Millisecond
+		}
 		c16.mu.Unlock()
+		timeout := 2 * time.Second
+		if i < giveup {
+			timeout = 150 * time.Millisecond
+		}
 		var wg sync.WaitGroup
 		for j := 0; j < par; j++ {
 			idx := i*par + j
@@ -325,7 +360,7 @@ func c16runSeq(cs string) string {
 				q.SetQuestion(fmt.Sprintf("q%d.test.", nonce), dns.TypeA)
 				q.Id = uint16(0x2222 + idx)
 				qb, _ := q.Pack()
-				ctx, cancel := context.WithTimeout(context.Background(), 2*time.Second)
+				ctx, cancel := context.WithTimeout(context.Background(), timeout)
 				r, err := up.ExchangeContext(ctx, qb)
 				cancel()
 				switch {
@@ -352,7 +387,12 @@ func c16runSeq(cs string) string {
 		wg.Wait()
 		time.Sleep(time.Duration(gap) * time.Millisecond)
 	}
-	return "res=" + strings.Join(res, ",")
+	time.Sleep(time.Duration(giveup) * 50 * time.Millisecond)
+	c16.mu.Lock()
+	ov := c16.overlap
+	c16.slowReply = 0
+	c16.mu.Unlock()
+	return fmt.Sprintf("res=%s ## overlap=%d", strings.Join(res, ","), ov)
 }
 
 func c16genSeq(r *rand.Rand, thorough bool, emit func(c, cat string)) {
@@ -365,6 +405,11 @@ func c16genSeq(r *rand.Rand, thorough bool, emit func(c, cat string)) {
 	}
 	// a TCP leg that fails for a while and then works again: the upstream must try it again for the very next
 	// truncated reply (no memory of the failure)
+	// a caller that gives up while the TCP leg's reply is still outstanding: the next truncated query goes to a
+	// connection that owes nothing (one-at-a-time connections, C06)
+	for i := 0; i < 1+n/20; i++ {
+		emit(fmt.Sprintf("seq=%d par=1 close=0 gap=%d giveup=1 q=%d", 2+r.Intn(2), []int{5, 30}[r.Intn(2)], 1+r.Intn(1<<20)), "giveup-then-ok")
+	}
 	for i := 0; i < 2+n/8; i++ {
 		f := 1 + r.Intn(2)
 		emit(fmt.Sprintf("seq=%d par=%d close=%d gap=%d fail=%d q=%d", f+1+r.Intn(3), []int{1, 1, 3}[r.Intn(3)], i%2, []int{5, 30, 100}[r.Intn(3)], f, 1+r.Intn(1<<20)), "tcpfail-then-ok")
